@@ -130,7 +130,18 @@ fn manager_history(acc: &mut Acc, r: &mut Rng, steps: u64) {
             let before = snap(&app);
             let what = format!("create_epoch @{now} (model: id {mid}, start {mstart}, duration {duration}, registered hooks {registered:?}, failing {failing:?}, expect {})", if expect_ok { "accept" } else { "reject" });
             ops.push(what.clone());
-            let res = exec(&mut app, &who, &mgr, &em::ExecuteMsg::CreateEpoch {}, &[]);
+            // one attempt in six is made by one of the hook contracts itself (registered or not), poked by a user
+            let via_hook = if r.chance(1, 6) { Some(r.below(3) as usize) } else { None };
+            let res = match via_hook {
+                Some(i) => {
+                    ops.push(format!("  (sent by the hook contract hook{i}, registered: {})", registered[i]));
+                    if registered[i] {
+                        acc.count("manager.create.sent-by-a-registered-hook");
+                    }
+                    exec(&mut app, &who, &hooks[i], &HookRxExec::Poke { manager: mgr.to_string() }, &[])
+                }
+                None => exec(&mut app, &who, &mgr, &em::ExecuteMsg::CreateEpoch {}, &[]),
+            };
             let klass = if now < genesis { 0 } else if now < mstart + duration { 1 } else if now == mstart + duration { 2 } else if now - mstart < 2 * duration { 3 } else { 4 };
             acc.case(&[1, n_hooks as u64, klass, res.is_ok() as u64, (duration / DAY_NS)]);
             acc.count("check.T1.manager");
@@ -344,9 +355,9 @@ pub fn run(ctx: &Ctx) -> (CheckMeta, Acc) {
     });
     let meta = CheckMeta {
         level: "exploration",
-        rule: "block-time schedules built from {same time, +1ns, boundary-1ns, boundary, boundary+1ns, half a duration late, 3.5 durations late, genesis-1ns, genesis, random} with 1-4 creation attempts per block by arbitrary accounts, durations in {1d, 1d+1ns, 2d/3d, 7d}, genesis offsets in {0, 1ns, 1us, 12h, 2d}, epoch manager start ids {0,1,9,10,255} with 0-3 recording hook contracts registered at the start, hooks added and removed by the owner mid-history (a hook's expected notifications are the epochs created while it was registered) and hooks that answer with an injected error for a while (the creation must then be rejected as a whole and succeed with the same id once the fault is gone), and the real fee distributor (full system wiring). Reference clock model: accept iff now >= genesis and now - start >= duration; id += 1; start += duration (genesis first). After every attempt: accepted iff the model says so, CurrentEpoch == model, every hook's notification list == list of created epochs (exactly once, carrying the epoch), rejected attempts leave the state byte-identical; at the end ids and start times are gap-free. distinct = distinct (clock, hooks, time class, outcome, duration) tuples.".to_string(),
+        rule: "block-time schedules built from {same time, +1ns, boundary-1ns, boundary, boundary+1ns, half a duration late, 3.5 durations late, genesis-1ns, genesis, random} with 1-4 creation attempts per block by arbitrary accounts (one in six relayed by one of the hook contracts itself), durations in {1d, 1d+1ns, 2d/3d, 7d}, genesis offsets in {0, 1ns, 1us, 12h, 2d}, epoch manager start ids {0,1,9,10,255} with 0-3 recording hook contracts registered at the start, hooks added and removed by the owner mid-history (a hook's expected notifications are the epochs created while it was registered) and hooks that answer with an injected error for a while (the creation must then be rejected as a whole and succeed with the same id once the fault is gone), and the real fee distributor (full system wiring). Reference clock model: accept iff now >= genesis and now - start >= duration; id += 1; start += duration (genesis first). After every attempt: accepted iff the model says so, CurrentEpoch == model, every hook's notification list == list of created epochs (exactly once, carrying the epoch), rejected attempts leave the state byte-identical; at the end ids and start times are gap-free. distinct = distinct (clock, hooks, time class, outcome, duration) tuples.".to_string(),
         assumptions: vec!["epoch manager: the first created epoch is start_epoch.id + 1 at genesis + duration (the instantiated start epoch is the genesis epoch)".into()],
-        obligations: vec!["check.T1.manager".into(), "check.T1.distributor".into(), "check.T3.hooks".into(), "manager.create.ok".into(), "manager.create.rejected".into(), "distributor.create.ok".into(), "distributor.create.rejected".into(), "manager.create.ok.several-durations-late".into(), "distributor.create.ok.several-durations-late".into(), "distributor.rejected.before-genesis".into(), "check.U1".into(), "manager.hook.added".into(), "manager.hook.removed".into(), "manager.hook.removed-hook-stays-silent".into(), "manager.create.rejected.failing-hook".into()],
+        obligations: vec!["check.T1.manager".into(), "check.T1.distributor".into(), "check.T3.hooks".into(), "manager.create.ok".into(), "manager.create.rejected".into(), "distributor.create.ok".into(), "distributor.create.rejected".into(), "manager.create.ok.several-durations-late".into(), "distributor.create.ok.several-durations-late".into(), "distributor.rejected.before-genesis".into(), "check.U1".into(), "manager.hook.added".into(), "manager.hook.removed".into(), "manager.hook.removed-hook-stays-silent".into(), "manager.create.rejected.failing-hook".into(), "manager.create.sent-by-a-registered-hook".into()],
     };
     (meta, total)
 }
